@@ -158,6 +158,16 @@ func (t *Transaction) With(name string, readOnly bool, createFn func() (Cachable
 		existingCache.lastAccessed = time.Now()
 		t.manager.mu.Unlock()
 		verifAfterLookup(name, readOnly)
+		/* Pruning takes the manager lock. It is deferred first so that it runs
+		 * after the deferred release of a read lock below: a reader that waits
+		 * for the manager while it still keeps a writer from the cache can
+		 * close a cycle with the goroutines of that writer's transaction. */
+		reused := false
+		defer func() {
+			if reused {
+				t.manager.checkAndPrune()
+			}
+		}()
 		/* Bbolt allows multiple read transactions to be open at the same time
 		 * but only a single write. For example, if there is an insert operation,
 		 * we should still be able to search. Now, we need to make sure the cache
@@ -259,7 +269,7 @@ func (t *Transaction) With(name string, readOnly bool, createFn func() (Cachable
 		}
 		if cacheToUse == existingCache {
 			log.Debug().Str("name", name).Bool("readOnly", readOnly).Msg("Reusing cache")
-			defer t.manager.checkAndPrune()
+			reused = true
 		}
 		if err := f(cacheToUse.item); err != nil {
 			/* Something went wrong, we'll scrap the cache and delete it from the
